@@ -30,6 +30,8 @@ type Route struct {
 	Local   bool
 	Xfer    bool // ICS-20 transfer application (real stack) instead of a scripted mock
 	OneWay  bool // packets flow only from end 0 to end 1 (end 0's application is not scripted)
+	Half    bool // v1h/v1ho: end 1 is still TRYOPEN (the confirmation has not been relayed yet)
+	AckedAt int64 // v1h/v1ho: height of end 0's chain at which end 0 became OPEN
 	// per direction d (0: end0 -> end1, 1: end1 -> end0)
 	Chain  [2]*sim.Chain
 	Port   [2]string // v1 port of end i
@@ -272,6 +274,20 @@ func (p *Core) Setup(w *sim.World) {
 	if p.wantKind("v1o") {
 		ca, cb := sim.OpenChannel(ea, eb, ibcmock.PortID, ibcmock.PortID, ibcmock.Version, channeltypes.ORDERED)
 		p.Routes = append(p.Routes, &Route{Kind: "v1o", Ordered: true, Chain: [2]*sim.Chain{a, b}, Port: [2]string{ca.Port, cb.Port}, ID: [2]string{ca.ChanID, cb.ChanID},
+			Client: [2]string{ea.ClientID, eb.ClientID}, Conn: [2]string{ea.ConnID, eb.ConnID}})
+	}
+	for _, k := range []string{"v1h", "v1ho"} {
+		// channels whose handshake stops before the confirmation: end 0 is OPEN and sends, end 1 is
+		// TRYOPEN until a relayer delivers the confirmation (op conf) at a seeded later point
+		if !p.wantKind(k) {
+			continue
+		}
+		order := channeltypes.UNORDERED
+		if k == "v1ho" {
+			order = channeltypes.ORDERED
+		}
+		ca, cb := sim.OpenChannelSteps(ea, eb, ibcmock.PortID, ibcmock.PortID, ibcmock.Version, order, false)
+		p.Routes = append(p.Routes, &Route{Kind: k, Half: true, AckedAt: a.Height, Ordered: k == "v1ho", Chain: [2]*sim.Chain{a, b}, Port: [2]string{ca.Port, cb.Port}, ID: [2]string{ca.ChanID, cb.ChanID},
 			Client: [2]string{ea.ClientID, eb.ClientID}, Conn: [2]string{ea.ConnID, eb.ConnID}})
 	}
 	if p.wantKind("v2a") {
